@@ -1,21 +1,39 @@
 """C04 — the token stream is a faithful, layout-independent reading of the text."""
 import hashlib, json, os, random, shutil
-import common, gen04, lexgen, sqlgen
+import common, gen04, lexcoq, lexgen, sqlgen
 from common import Report, log
 
 MANIFEST = dict(
     technique='Coq proof over a byte-level Gallina mirror of the tokenizer (Model/Lexer.v) + lexical tables regenerated from the source each run + byte-for-byte differential correspondence of the Go tokenizer against the OCaml extraction of the model (sample re-evaluated in Coq by vm_compute) + implementation-side reference lexer and layout-independence oracles',
-    text='The tokenizer (whitespace/comment skipping, dispatch, identifiers and keywords with compound look-ahead, numbers, the four quoted readers with doubled quotes and escapes, triple quotes, dollar quoting, placeholders, every operator ladder, both limits, every error site with its location) is mirrored branch by branch in Gallina over bytes with explicit Panic/OutOfFuel outcomes. Proved for every byte string: tokenizing never panics and never runs out of fuel (progress lemma per dispatch branch); a successful run ends with exactly one end marker, contains no other, has ordered non-empty disjoint token spans and at most MaxTokens tokens; input above the size limit is rejected with E1006 at 1:1 and at or below it the limit plays no role; comments are captured in source order, each with exactly the bytes it spans. Against the reference lexical grammar: the munch lemma of the operator/punctuation class (partial faithful-reading theorem) and quoted identifiers kept distinct from keywords. NOT proved in this revision: the faithful-reading theorem for words, numbers, strings, quoted identifiers and dollar quoting, and its corollaries layout independence and keyword-case independence; these are decided by the byte-for-byte correspondence and the implementation-side oracles (reference lexer written from the grammar, re-layout/re-case oracle on kinds, values and the parse). The keyword maps, rune classes, token type numbers, limits and error codes are regenerated from the tree on every run; the model is compared with the real tokenizer on every operator pair x separator class, generated lexeme streams, byte soup, invalid UTF-8 and the repository corpus (kind, value, quote, spans, comments, error code and location).',
-    note=common.BASE_NOTE + "C04: the theorems are about Model/Lexer.v; its tie to tokenizer.go is the differential correspondence (extracted OCaml, ExtrOcamlBasic only, cross-checked in Coq on a sample) plus the regenerated tables. strings.ToUpper is modelled only as far as a lookup in the ASCII-keyed keyword maps can observe it (table of non-ASCII runes with ASCII upper-case image is regenerated). Compound keywords are judged after splitting (raw GROUP BY is one token).",
+    text='The tokenizer (whitespace/comment skipping, dispatch, identifiers and keywords with compound look-ahead, numbers, the four quoted readers with doubled quotes and escapes, triple quotes, dollar quoting, placeholders, every operator ladder, both limits, every error site with its location) is mirrored branch by branch in Gallina over bytes with explicit Panic/OutOfFuel outcomes. Proved for every byte string: tokenizing never panics and never runs out of fuel (progress lemma per dispatch branch); a successful run ends with exactly one end marker, contains no other, has ordered non-empty disjoint token spans and at most MaxTokens tokens; input above the size limit is rejected with E1006 at 1:1 and at or below it the limit plays no role; comments are captured in source order, each with exactly the bytes it spans. Proved against the reference lexical grammar Spec/LexSpec.v (lexeme classes with render/tok_of, separator language, decidable adjacency rule follow_ok, well-formedness wf) for EVERY lexeme class - operators and punctuation (43), bare @ and $, numbers (integer/decimal/exponent), words (identifiers incl. Unicode, keywords, the two-word keyword look-ahead), $n and @name parameters, single-quoted strings (doubled quotes, every escape, typographic quotes), double-quoted identifiers, back-ticked identifiers, dollar-quoted strings (with/without tag), triple-quoted strings - and every separator (white space, line comments, block comments): the separator lemma (sep_skip), one munch lemma per class (C04_munch), and by induction over the lexeme list lex_faithful: tokenize(interleave ls seps) is exactly the prescribed reading - raw tokens with byte spans, one end marker at the end of the text, comment records with exact text (C04_lex_faithful_raw); after two-word keyword tokens are split and keyword spellings upper-cased the kind/value/quote sequence is map tok_norm ls followed by one EOF and the comment texts are those of the separators (C04_lex_faithful). Corollaries: layout independence (two separator assignments give the same reading), keyword-case independence, and the token limit as an equivalence (E1007 iff more raw tokens than the limit, so exactly-at-limit is accepted). Quoted identifiers are kept distinct from keywords. Outside the grammar (hence decided only by totality/shape theorems, the byte-for-byte correspondence and the implementation-side oracles): invalid UTF-8 inside words or literals, a bare $ directly followed by a word, malformed input. The keyword maps, rune classes, token type numbers, limits and error codes are regenerated from the tree on every run and the proofs use them only through facts decided by complete evaluation; the model is compared with the real tokenizer on every operator pair x separator class, generated lexeme streams, byte soup, invalid UTF-8 and the repository corpus (kind, value, quote, spans, comments, error code and location).',
+    note=common.BASE_NOTE + "C04: the theorems are about Model/Lexer.v; its tie to tokenizer.go is the differential correspondence (extracted OCaml, ExtrOcamlBasic only, cross-checked in Coq on a sample) plus the regenerated tables. strings.ToUpper is modelled only as far as a lookup in the ASCII-keyed keyword maps can observe it (table of non-ASCII runes with ASCII upper-case image is regenerated). Compound keywords are judged after splitting (raw GROUP BY is one token): the splitting/upper-casing function normalize of Spec/LexSpec.v is the one the reference-lexer oracle applies to the implementation output (lexgen.norm_raw); its agreement with the parser token converter is an oracle (converted kinds/values equal under re-layout), not a theorem. lex_faithful needs the text to fit MaxInputSize/MaxTokens (hypothesis fits).",
     design="6/C04")
 
-COQ_TARGETS = ["theories/Proofs/LexerP.vo", "theories/Proofs/LexSpecP.vo"]
+COQ_TARGETS = ["theories/Proofs/LexerP.vo", "theories/Proofs/LexSpecP.vo", "theories/Proofs/LexNormP.vo", "theories/Spec/LexRefEval.vo"]
 PROPS = "theories/Props/C04.v"
 THEOREMS = ["C04_tokenize_total", "C04_exactly_one_eof", "C04_tokenize_shape", "C04_size_limit", "C04_size_limit_exact",
-            "C04_token_limit_partial", "C04_comments_captured", "C04_lex_faithful_partial", "C04_quoted_distinct"]
-NOT_PROVED = ["lex_faithful (full: words/keywords with compound look-ahead, numbers, strings, quoted identifiers, dollar quoting, separator lemma, induction over the lexeme list)",
-              "layout_independent and keyword_case_independent (corollaries of lex_faithful): decided by the implementation-side oracles and the correspondence only",
-              "token_limit iff (more tokens than the limit <=> E1007): only the bound is proved; the boundary is explored on the implementation by C02"]
+            "C04_token_limit_bound", "C04_comments_captured", "C04_sep_skip", "C04_munch", "C04_lex_faithful_raw",
+            "C04_lex_faithful", "C04_raw_reading", "C04_layout_independent", "C04_keyword_case_independent",
+            "C04_token_limit_iff", "C04_quoted_distinct"]
+# lexeme classes inside wf of Spec/LexSpec.v (constructors of [lexeme]); every one has its munch lemma in
+# Proofs/LexMunchP.v / LexWordP.v and is covered by lex_faithful
+STAGED_CLASSES = {
+    "LOp": "operators and punctuation: the 43 entries of all_ops (punct1 + optable), follow = next byte not in the entry's extension set",
+    "LAt": "bare @ (not before > @ or an identifier start)",
+    "LDollarSign": "bare $ (not before a digit, $ or an identifier start)",
+    "LNum": "numbers: digits [. digits] [(e|E) [+|-] digits]",
+    "LWord": "words: identifiers incl. Unicode, keywords (table lookup of the upper-cased spelling), two-word keyword look-ahead across plain white space",
+    "LParamNum": "$n parameters",
+    "LParamAt": "@name parameters",
+    "LSStr": "single-quoted strings: doubled quotes, the seven backslash escapes, typographic single quotes as delimiters and inside",
+    "LQId": "double-quoted identifiers incl. typographic double quotes, doubled quotes",
+    "LBId": "back-ticked identifiers, doubled back-ticks",
+    "LDollar": "dollar-quoted strings $tag$...$tag$ and $$...$$",
+    "LTriple": "triple-quoted strings",
+    "separators": "TWs (space, tab, CR, LF), TLine (-- to LF or end of text), TBlock (/* ... */)"}
+NOT_PROVED = ["outside the reference grammar, hence outside lex_faithful (decided by tokenize_total/tokenize_shape, the correspondence and the oracles only): invalid UTF-8 inside words or quoted literals, a bare $ directly followed by a word, malformed input",
+              "the agreement of Spec normalize (split two-word keyword tokens, upper-case keyword spellings) with the parser's token converter is checked by the re-layout oracle on converted tokens, not proved",
+              "the tie model <-> tokenizer.go is differential (byte-for-byte on generated inputs), not a proof"]
 
 
 def ensure_coqproject():
@@ -23,7 +41,9 @@ def ensure_coqproject():
     same here if it predates them, so that dependencies on the regenerated tables are tracked)"""
     pj = os.path.join(common.COQ, "_CoqProject")
     need = ["theories/Gen/LexTables.v", "theories/Model/Lexer.v", "theories/Inst/Inst_C04.v", "theories/Spec/LexSpec.v",
-            "theories/Proofs/LexerP.v", "theories/Proofs/LexSpecP.v", "theories/Props/C04.v"]
+            "theories/Proofs/LexerP.v", "theories/Proofs/LexSpecP.v", "theories/Proofs/LexUtf8P.v", "theories/Proofs/LexSepP.v",
+            "theories/Proofs/LexMunchP.v", "theories/Proofs/LexWordP.v", "theories/Proofs/LexFaithP.v",
+            "theories/Proofs/LexNormP.v", "theories/Spec/LexRefEval.v", "theories/Props/C04.v"]
     try:
         have = open(pj).read().split()
     except OSError:
@@ -336,7 +356,7 @@ def run(tier):
         return common.stage_fail(rp, e)
     tb = TB(tabs)
     if not ok_inst:
-        rp.violation({"kind": "proof", "theorem": "Proofs/LexerP.v or Proofs/LexSpecP.v (over the regenerated Gen/LexTables.v)", "log": logs["inst"][-3000:],
+        rp.violation({"kind": "proof", "theorem": "Proofs/LexerP.v, LexSpecP.v, LexUtf8P.v, LexSepP.v, LexMunchP.v, LexWordP.v, LexFaithP.v or LexNormP.v (over the regenerated Gen/LexTables.v)", "log": logs["inst"][-3000:],
                       "explanation": "the lexer proofs no longer check against the tables regenerated from this tree"}, "proofs_c04", no_input=True)
     elif not ok_props:
         rp.violation({"kind": "proof", "theorem": "Props/C04.v", "log": logs["props"][-3000:]}, "props_c04", no_input=True)
@@ -400,6 +420,7 @@ def run(tier):
     add("operator_pairs_x_separators", pairs)
     nstream = 3000 if quick else 60000
     streams = [lexgen.gen_stream(rng, tb) for _ in range(nstream)]
+    stream_off = len(inputs)
     add("lexeme_streams", [s[0] for s in streams])
     corpus = sqlgen.corpus_statements()
     add("corpus", corpus)
@@ -493,6 +514,54 @@ def run(tier):
             rp.violation({"kind": "tool", "detail": (errc or outc)[-2000:], "bad": badl,
                           "explanation": "the extracted OCaml model and the Coq model disagree (extraction or driver fault)"}, "extraction_crosscheck", no_input=True)
 
+    # ---- reference-grammar cross-check: generated lexeme streams as terms of Spec/LexSpec.v; Coq decides wf and computes the
+    # reading lex_faithful prescribes (tokens with spans, one EOF, comments); it must equal the Go tokenizer's output.
+    # Ties the formal grammar to the generator's grammar and measures how much of the generated space is inside wf.
+    if ok_inst:
+        nref = 500 if quick else 6000
+        per = 500
+        codes = {0: 0, 1: 0, 2: 0, 3: 0}
+        unconv, ref_bad, okr_all, ref_err = 0, [], True, ""
+        picked = [k for k in range(len(streams)) if len(streams[k][0]) <= 400][:nref]
+        for sh in range(0, len(picked), per):
+            terms, idx = [], []
+            for k in picked[sh:sh + per]:
+                text, lx, sp_ = streams[k]
+                want = outs[stream_off + k].get("c")
+                t = lexcoq.case_term(lx, sp_, inputs[stream_off + k], want) if want else None
+                if t is None:
+                    unconv += 1
+                    continue
+                terms.append(t); idx.append(k)
+            if not terms:
+                continue
+            okr, outr, errr = common.coq_cases("c04_ref_%d" % (sh // per), "\n".join(lexcoq.HEADER) + "\n" + ";\n".join(terms) + "\n" + lexcoq.FOOTER)
+            if not okr:
+                okr_all, ref_err = False, (errr or outr)[-1500:]
+                break
+            res = common.parse_nlist(outr)
+            for k, c in zip(idx, res):
+                codes[c] = codes.get(c, 0) + 1
+                if c in (2, 3):
+                    ref_bad.append((k, c))
+        rp.cov["reference_grammar_crosscheck"] = {"streams": len(picked), "well_formed_and_equal": codes[0], "not_well_formed": codes[1],
+                                                  "well_formed_but_different": codes[2], "conversion_fault": codes[3] + unconv}
+        rp.obligation("reference grammar cross-check: on %d generated streams that Coq decides well-formed, the reading prescribed by Spec/LexSpec.v "
+                      "(expect_all, evaluated by vm_compute) = the Go tokenizer's canonical output; %d streams outside wf" % (codes[0], codes[1]),
+                      okr_all and not ref_bad and codes[0] >= len(picked) // 2, ref_err or str(ref_bad[:5]))
+        for k, c in ref_bad[:3]:
+            b, o = inputs[stream_off + k], outs[stream_off + k]
+            fs = oracle(b, o, tb)
+            rp.violation({"kind": "correspondence", "broken": "reading prescribed by Spec/LexSpec.v (lex_faithful) vs Go tokenizer" if c == 2 else "stream -> Spec term conversion (lib/lexcoq.py)",
+                          "input_hex": hx(b), "input": b.decode("utf-8", "replace"), "lexemes": streams[k][1], "separators": streams[k][2],
+                          "impl_canon": o.get("c"), "oracle_failures": fs,
+                          "explanation": "a lexeme stream that the formal grammar accepts as well-formed is not read by the implementation as lex_faithful prescribes"},
+                         "ref_%d" % k, no_input=not fs)
+        if not okr_all or codes[0] < len(picked) // 2:
+            rp.violation({"kind": "tool", "detail": ref_err, "codes": codes,
+                          "explanation": "the reference-grammar cross-check could not be evaluated or covers less than half of the generated streams"},
+                         "ref_crosscheck", no_input=True)
+
     # ---- layout independence oracle: same lexemes, other separators / keyword case => same kinds+values, same parse
     lay_in = [s for s in corpus if len(s) < 1500][: (250 if quick else 3000)] + sqlgen.generated_statements(rng, 150 if quick else 2000) \
         + [s[0] for s in streams[:(400 if quick else 6000)]]
@@ -536,10 +605,8 @@ def run(tier):
     rp.cov["oracle_failures"] = nfail
     rp.cov["correspondence_mismatches"] = len(mism)
     rp.cov["samples"] = [{"input": inputs[i].decode("utf-8", "replace"), "canon": outs[i].get("c")[:40]} for i in (3, len(SPECIAL) + len(BYTE_SPECIAL) + 7)]
-    rp.cov["staged_classes"] = {"munch lemma proved": ["operators and punctuation (all except bare '@' and the '$' forms)"],
-                                "no munch lemma yet (correspondence and oracles only)": ["words and keywords", "numbers", "strings", "quoted identifiers",
-                                                                                          "back-ticked identifiers", "triple-quoted strings", "dollar quoting",
-                                                                                          "placeholders", "Unicode words"]}
+    rp.cov["staged_classes"] = {"inside wf, munch lemma proved, covered by lex_faithful": STAGED_CLASSES,
+                                "no munch lemma (correspondence and oracles only)": []}
     rp.cov["not_proved"] = NOT_PROVED
     rp.assumptions = ["the theorems are about Model/Lexer.v; the tie to tokenizer.go is the differential correspondence on the inputs listed, not a proof",
                       "strings.ToUpper is modelled as far as an ASCII-keyed map lookup observes it",
